@@ -335,6 +335,11 @@ def gen_config(rng, n_calls=14, shape=None):
     main = rng.choice(["this", "this", "root", "lazy"])
     cfg["defs"] = make_defs(rng, ids, table, "P", rng.randrange(4), rng.randrange(4), main)
     cfg["outer"] = make_defs(rng, ids, table, "M", rng.randrange(3), 0, None) if cfg["where"] != "module" else []
+    if cfg["where"] == "function" and rng.random() < 0.35:
+        # a module-level binding that carries the NAME of a function-level one (an unrelated predicate or a plain value):
+        # the function's own binding must win for every call made at or below the function's frame
+        nm = rng.choice(cfg["defs"])["name"]
+        cfg["outer"].append(make_def(rng, ids, nm, [], table, force=rng.choice(["other", "plain", "lazy", "this", "root"])))
     if cfg["where"] == "foreign":
         cfg["fstyle"] = rng.choice(["names", "names", "star", "module", "late"])
         cfg["astyle"] = rng.choice(["from", "qual"])
@@ -353,6 +358,9 @@ def gen_config(rng, n_calls=14, shape=None):
         fr["locals"] = make_defs(rng, ids, table, f"L{i}_", 0, 0, rng.choice([None, None, "this", "root", "lazy", "plain", "wrapS"])) if True else []
         chain.append(fr)
     cfg["chain"] = chain
+    # frames that also bind a non-predicate local called `self` (a method, or any function with such a parameter):
+    # the resolution only ever skips a *predicate* bound to that name, never the frame
+    cfg["selfs"] = [k for k in range(depth + 1) if rng.random() < 0.3]
     # "wrapS": a wrapper of a scope-level predicate defined in a deeper frame (a *related* binding below the scope)
     callable_defs = [d for d in cfg["defs"] if d["pred"]]
     for i, fr in enumerate(chain, 1):
@@ -532,7 +540,7 @@ def build(cfg, tag, instrument=False):
     else:
         scope_defs, body_ind = cfg["defs"], "    "
         acc = {d["name"]: d["name"] for d in cfg["defs"]}
-        lines.append("def _scope(_vals, _out):")
+        lines.append("def _scope(_vals, _out, self=None):" if 0 in cfg.get("selfs", ()) else "def _scope(_vals, _out):")
     callable_names = [d["name"] for d in cfg["defs"] if d["pred"]]
     acc = {n: a for n, a in acc.items() if n in callable_names or True}
 
@@ -574,7 +582,7 @@ def build(cfg, tag, instrument=False):
                 acc3 = {n: f"_env{j}[{n!r}]" for n in usable}
             local_bind.setdefault(j, {}).update({d["name"]: d["uid"] for d in fr["locals"]})
             fn_name[j] = f"_f{j}"
-            out.append(f"{ind}def _f{j}({', '.join(params)}):")
+            out.append(f"{ind}def _f{j}({', '.join(params + (['self=None'] if j in cfg.get('selfs', ()) else []))}):")
             # a wrapper defined in a deeper frame refers to the scope-level predicate through the access path
             for d in fr["locals"]:
                 if not names_in(d["ast"]) <= set(acc3):  # the wrapped predicate is not reachable here: bind a plain predicate instead
@@ -739,7 +747,16 @@ def quantifier(cfg, built, lib):
         nid, uid = d["node"], d["uid"]
         related = [u for (_n, u) in all_bindings if not u.startswith("lib:") and u != uid and nid in table[u]["nodes"]]
         if d["flavour"] == "lazy":
-            related += [u for (n, u) in all_bindings if n == d["name"] and u != uid]
+            # a binding of the same NAME shadows the definition only where the by-name lookup meets it first: in a frame
+            # closer to the reference than the definition's own frame (or in a stack that does not contain the definition).
+            # A same-named binding in an ENCLOSING scope (module level, definition in a function) is just an unrelated predicate.
+            for cj in built["order"]:
+                st = built["stacks"][cj]
+                def_idx = next((j for j, f in enumerate(st) if any(n == d["name"] and u == uid for (n, u) in f)), None)
+                for j, f in enumerate(st):
+                    for (n, u) in f:
+                        if n == d["name"] and u != uid and (def_idx is None or j < def_idx):
+                            related.append(u)
         if related:
             expect[ci] = None
             continue
